@@ -830,6 +830,8 @@ def cmd_confirm(args):
     for rec in res["mutants"]:
         if not rec.get("stage", "").startswith("survivor") or rec.get("confirmed") is not None:
             continue
+        if args.ids and rec["id"] not in args.ids.split(","):
+            continue
         if time.time() > deadline:
             break
         t0 = time.time()
@@ -860,6 +862,7 @@ def cmd_confirm(args):
                 break
         w.restore()
         rec["confirm_checks"] = reruns
+        rec["confirm_scope"] = "all mapped checks" if args.all_checks else "C13/C14/C18 of the mapped list + first %d other mapped check(s)" % args.max_checks
         rec["confirmed"] = verdict
         rec["confirm_wall_s"] = round(time.time() - t0, 1)
         save_results(res)
@@ -933,7 +936,7 @@ def main():
     r.add_argument("--tier", default="quick"); r.add_argument("--only-files", default="")
     o = sub.add_parser("one"); o.add_argument("id"); o.add_argument("--worker", type=int, default=0)
     c = sub.add_parser("confirm"); c.add_argument("--all-checks", action="store_true"); c.add_argument("--max-checks", type=int, default=99)
-    c.add_argument("--minutes", type=float, default=60); c.add_argument("--only-new", action="store_true")
+    c.add_argument("--minutes", type=float, default=60); c.add_argument("--only-new", action="store_true"); c.add_argument("--ids", default="")
     sub.add_parser("report")
     sub.add_parser("cleanup")
     a = ap.parse_args()
